@@ -94,6 +94,7 @@ def cv_setup(ctx):
 
     def check_value_key(c, s_, a, k):
         c.event("type-check", a[2])
+        c.event("type-check-args", a[0], a[1], a[2], a[3])
         if info[a[2]]["bad"]:
             raise PyRaise(ExcVal("TypeError", origin="_check_value_key"))
         return a[1]
@@ -105,7 +106,7 @@ def cv_setup(ctx):
              "_find_parent_action_and_subcommand": find_parent, "lenient_check.get": lambda c, a, k: lenient,
              "ActionTypeHint.is_subclass_typehint": lambda c, a, k: False, "split_key_root": lambda c, a, k: a[0].split(".", 1)}
     env = {"cfg": cfg, "self": self, "skip_none": skip_none, "ccfg": cfg}
-    return Setup(env=env, calls=calls, data=dict(keys=keys, info=info, skip_none=skip_none, lenient=lenient))
+    return Setup(env=env, calls=calls, data=dict(keys=keys, info=info, skip_none=skip_none, lenient=lenient, cfg=cfg))
 
 
 def offending(d):
@@ -120,6 +121,9 @@ def cv_post(ctx, st, result):
     want = [k for k in d["keys"] if d["info"][k]["kind"] == "has-action" and not (d["info"][k]["none"] and d["skip_none"]) and not d["lenient"]]
     ctx.oblige("post", "accepted=>every-key-with-an-action-and-a-value-was-type-checked-once", checked == want, note=f"{checked} vs {want}")
     ctx.oblige("post", "accepted=>no-ill-typed-value(unless lenient)", d["lenient"] or not any(d["info"][k]["bad"] for k in d["keys"]))
+    args = [e for e in ctx.events if e[0] == "type-check-args"]
+    ctx.oblige("post", "each-check-is-(the key's own action, the value stored under the key, the key, the whole configuration)",
+               all(e[1] is d["info"][e[3]]["action"] and ((e[2] is None) if d["info"][e[3]]["none"] else (z3.is_expr(e[2]) and str(e[2]) == f"cfg[{e[3]}]")) and e[4] is d["cfg"] for e in args))
 
 
 def cv_raises(ctx, st, exc):
